@@ -66,6 +66,8 @@ func runC05(ctx *Ctx, c c05Case) {
 			class = "c05.bufsize0"
 		} else if !c.Dag.balanced() {
 			class = "c05.unbalanced-deadlock"
+		} else if c.Dag.reconvergingBatch() {
+			class = "c05.batch-deadlock"
 		}
 		ctx.Res.Violate(Violation{What: fmt.Sprintf("Run did not return within the time limit (SCIPIPE_BUFSIZE=%d)", c.Buf), Class: class, Witness: c})
 		return
@@ -78,6 +80,8 @@ func runC05(ctx *Ctx, c c05Case) {
 				class = "c05.bufsize0"
 			} else if !c.Dag.balanced() {
 				class = "c05.unbalanced-deadlock" // F20: a process stops reading when one in-port closes
+			} else if c.Dag.reconvergingBatch() {
+				class = "c05.batch-deadlock" // F23: a whole-stream reader inside a reconverging fan-out
 			}
 		}
 		ctx.Res.Violate(Violation{What: fmt.Sprintf("well-formed workflow exited %d (SCIPIPE_BUFSIZE=%d): %s", rr.Exit, c.Buf, firstLine(rr.Stderr)), Class: class, Witness: c})
@@ -158,6 +162,10 @@ func checkC05(ctx *Ctx) {
 		{Name: "P0", Kind: "proc", Ins: []string{"s0"}, NoOut: true}, {Name: "P1", Kind: "proc", Ins: []string{"s0"}}, {Name: "P2", Kind: "proc", Ins: []string{"P1"}}}}})
 	// issue #81 shape: more tasks than buffer slots in a chain
 	// F20 shape: a two-port process whose ports carry 5 and 1 items, buffer 1
+	// F23: a ParamCombinator (reads its whole stream before emitting) whose source also feeds P1 directly, and P1
+	// waits for P0, which waits for the combinator: balanced, yet stuck once the stream exceeds the buffer
+	cases = append(cases, c05Case{Buf: 1, Dag: Dag{Max: 2, Nodes: []DNode{{Name: "s0", Kind: "src", Items: 3}, {Name: "ps0", Kind: "psrc", PVals: []string{"v0", "v1", "v2"}},
+		{Name: "pc0", Kind: "pcomb", PIn: "ps0"}, {Name: "P0", Kind: "proc", Ins: []string{"s0"}, PIn: "pc0"}, {Name: "P1", Kind: "proc", Ins: []string{"P0"}, PIn: "ps0"}}}})
 	cases = append(cases, c05Case{Buf: 1, Dag: Dag{Max: 4, Nodes: []DNode{{Name: "s0", Kind: "src", Items: 5}, {Name: "s1", Kind: "src", Items: 1},
 		{Name: "P0", Kind: "proc", Ins: []string{"s0"}}, {Name: "P2", Kind: "proc", Ins: []string{"P0", "P0"}}, {Name: "P3", Kind: "proc", Ins: []string{"P0", "s1"}}}}})
 	cases = append(cases, c05Case{Buf: 2, Dag: Dag{Max: 2, Nodes: []DNode{{Name: "s0", Kind: "src", Items: 7},
